@@ -41,7 +41,10 @@ def gen_recs(rng, alphabet, n, nonempty_prefix=False, no_at=False):
         seen_u.add(u)
         psyn = [fresh(seen_p, 1 if nonempty_prefix else 0) for _ in range(rng.choice([0, 0, 1, 2]))]
         usyn = ["https://" + fresh(seen_u, 0) + "#" for _ in range(rng.choice([0, 0, 1, 2]))]
-        pat = rng.choice([None, None, "^\\d{7}$", "^[A-Z]+\\.\\d+$", "", "\\\\", "a b"])
+        # a pattern is a string (the SHACL / XPath flavour of regular expressions is not Python's): also ones that Python's re does
+        # not compile, a lone backslash, and arbitrary printable text
+        pat = rng.choice([None, None, None, "^\\d{7}$", "^[A-Z]+\\.\\d+$", "", "\\\\", "a b", "^\\p{Lu}{2}\\d+$", "^\\i\\c*$", "a(b", "[", "*a", "\\",
+                          rnd(rng, [c for c in alphabet if c >= " " and c not in '"<>'] or ["a"], 1, 6)])
         recs.append([p, u, psyn, usyn, opt(pat)])
     # a CURIE prefix that, followed by ':', is the beginning of a URI prefix in the same converter (http, https): a reader that
     # treats values as compact IRIs must not resolve them
